@@ -1,6 +1,6 @@
 (* ErrScan_proofs.v — lemmas about model/ErrScan.v (the error scan and the
    evaluation wrappers).  Used by P_C13.v (scan facts) and P_C10.v. *)
-From Koreo Require Import Json Outcome ErrScan.
+From Koreo Require Import Json Outcome ErrScan Predicates.
 From Coq Require Import Lia.
 Local Open Scope list_scope.
 
@@ -75,3 +75,439 @@ Proof.
   - intros H. destruct (existsb scan l) eqn:E; auto. apply existsb_exists in E as (x & Hin & Hx).
     apply H in Hin. apply scan_false_err_free in Hin. congruence.
 Qed.
+
+(* ====================================================================== *)
+(* C10: the evaluation wrappers                                            *)
+(* ====================================================================== *)
+
+(* celpy reported a failure at a site: it raised, or the value it returned holds an
+   error object somewhere *)
+Definition failed (r : raw) : Prop :=
+  match r with RVal v => occurs_err v | _ => True end.
+
+(* "a PermFail naming the location": the location string occurs in the message, or is the
+   outcome's location attribute *)
+Definition names_loc (L : string) (o : outcome) : Prop :=
+  exists m l, o = PermFail m l /\
+    ((exists pre post, m = Some (pre ++ L ++ post)%string) \/ l = Some L).
+
+Lemma names_loc_fail_eval : forall L, names_loc L (fail_eval L).
+Proof.
+  intros L. exists (Some (msg_eval L)), None. split; auto. left.
+  exists "Error evaluating `"%string, "`"%string. reflexivity.
+Qed.
+
+Lemma names_loc_fail_unknown : forall L, names_loc L (fail_unknown L).
+Proof.
+  intros L. exists (Some (msg_unknown L)), None. split; auto. left.
+  exists "Unknown failure evaluating `"%string, "`."%string. reflexivity.
+Qed.
+
+Lemma names_loc_attr : forall L m, names_loc L (PermFail m (Some L)).
+Proof. intros L m. exists m, (Some L). auto. Qed.
+
+Lemma failed_scan : forall v, failed (RVal v) <-> scan v = true.
+Proof. intros v. cbn. symmetry. apply scan_complete. Qed.
+
+(* evaluate: None only without an expression; a value only if celpy returned that very
+   value and it is error-free; otherwise a PermFail naming the location.  Never raises
+   (it is a total function into [eres]). *)
+Lemma evaluate_cases : forall e loc,
+  match evaluate e loc with
+  | ENone => e = None
+  | EVal v => e = Some (RVal v) /\ err_free v
+  | EFail o => (exists r, e = Some r /\ failed r) /\ names_loc loc o
+  end.
+Proof.
+  intros [[| |v]|] loc; cbn; auto.
+  - split; [exists RRaise; cbn; auto|apply names_loc_fail_eval].
+  - split; [exists RRaiseOther; cbn; auto|apply names_loc_fail_unknown].
+  - destruct (scan v) eqn:E.
+    + split; [exists (RVal v); split; auto; now apply failed_scan|apply names_loc_fail_eval].
+    + split; auto. now apply scan_false_err_free.
+Qed.
+
+Lemma evaluate_failed : forall r loc, failed r -> exists o, evaluate (Some r) loc = EFail o /\ names_loc loc o.
+Proof.
+  intros [| |v] loc H; cbn.
+  - eexists; split; eauto using names_loc_fail_eval.
+  - eexists; split; eauto using names_loc_fail_unknown.
+  - apply failed_scan in H. rewrite H. eexists; split; eauto using names_loc_fail_eval.
+Qed.
+
+(* ---------- maps ---------- *)
+Lemma scan_kvs_false : forall kvs,
+  scan_kvs kvs = false <-> Forall (fun kv => scan (fst kv) = false /\ scan (snd kv) = false) kvs.
+Proof.
+  induction kvs as [|[k x] r IH]; cbn [scan_kvs].
+  - split; auto.
+  - rewrite !Bool.orb_false_iff, IH. split.
+    + intros [[H1 H2] H3]. constructor; auto.
+    + intros H. inversion H; subst. cbn in *. tauto.
+Qed.
+
+Lemma scan_vlookup : forall k kvs v,
+  scan_kvs kvs = false -> vlookup k kvs = Some v -> scan v = false.
+Proof.
+  induction kvs as [|[k' x] r IH]; cbn [vlookup scan_kvs]; intros v H L; [discriminate|].
+  apply Bool.orb_false_iff in H as [H H3]. apply Bool.orb_false_iff in H as [H1 H2].
+  destruct (key_is k k'); [now inversion L; subst|auto].
+Qed.
+
+Lemma scan_vset : forall k v kvs,
+  scan_kvs kvs = false -> scan v = false -> scan_kvs (vset k v kvs) = false.
+Proof.
+  induction kvs as [|[k' x] r IH]; cbn [vset scan_kvs]; intros H Hv.
+  - cbn. now rewrite Hv.
+  - apply Bool.orb_false_iff in H as [H H3]. apply Bool.orb_false_iff in H as [H1 H2].
+    destruct (key_is k k'); cbn [scan_kvs]; rewrite H1; [now rewrite Hv, H3|].
+    rewrite H2, IH; auto.
+Qed.
+
+Lemma scan_nth : forall l n v, existsb scan l = false -> nth_error l n = Some v -> scan v = false.
+Proof.
+  induction l as [|x r IH]; intros [|n] v H E; cbn in *; try discriminate;
+    apply Bool.orb_false_iff in H as [H1 H2].
+  - now inversion E; subst.
+  - eauto.
+Qed.
+
+(* ---------- the overlay applier ---------- *)
+Section IndexInd.
+  Variable P : index -> Prop.
+  Hypothesis Hat : forall n, P (IAt n).
+  Hypothesis Hsub : forall kvs, Forall (fun kv => P (snd kv)) kvs -> P (ISub kvs).
+  Fixpoint index_ind' (i : index) : P i :=
+    match i with
+    | IAt n => Hat n
+    | ISub kvs =>
+        Hsub kvs ((fix go (l : list (string * index)) : Forall (fun kv => P (snd kv)) l :=
+                     match l with
+                     | [] => Forall_nil _
+                     | (k, x) :: r => Forall_cons (k, x) (index_ind' x) (go r)
+                     end) kvs)
+    end.
+End IndexInd.
+
+(* every leaf position of the index exists in a value list of length n *)
+Fixpoint idx_in_range (i : index) (n : nat) : bool :=
+  match i with
+  | IAt k => Nat.ltb k n
+  | ISub kvs =>
+      (fix go (l : list (string * index)) : bool :=
+         match l with
+         | [] => true
+         | (_, x) :: r => idx_in_range x n && go r
+         end) kvs
+  end.
+
+Definition apply_go (base : list (vtree * vtree)) (values : list vtree) :=
+  fix go (kvs : list (string * index)) (acc : list (vtree * vtree)) : res (list (vtree * vtree)) :=
+    match kvs with
+    | [] => Done acc
+    | (k, i') :: r =>
+        match apply_idx i' (vlookup k base) values with
+        | Raised e => Raised e
+        | Done v => go r (vset k v acc)
+        end
+    end.
+
+Lemma apply_idx_sub : forall kvs old values,
+  apply_idx (ISub kvs) old values =
+    match apply_go (match old with Some (VMap m) => m | _ => [] end) values kvs
+                   (match old with Some (VMap m) => m | _ => [] end) with
+    | Done m => Done (VMap m)
+    | Raised e => Raised e
+    end.
+Proof. reflexivity. Qed.
+
+Lemma apply_idx_scan : forall i old values v,
+  existsb scan values = false ->
+  (forall o, old = Some o -> scan o = false) ->
+  apply_idx i old values = Done v -> scan v = false.
+Proof.
+  induction i as [n|kvs IH] using index_ind'; intros old values v Hv Hold E.
+  - cbn in E. destruct (nth_error values n) eqn:N; inversion E; subst. eapply scan_nth; eauto.
+  - rewrite apply_idx_sub in E.
+    set (base := match old with Some (VMap m) => m | _ => [] end) in *.
+    assert (Hb : scan_kvs base = false).
+    { subst base. destruct old as [[]|]; auto. apply (Hold _ eq_refl). }
+    destruct (apply_go base values kvs base) as [m|e] eqn:G; inversion E; subst. cbn [scan]. fold scan_kvs.
+    assert (Hacc : forall acc m, scan_kvs acc = false -> apply_go base values kvs acc = Done m ->
+                                 scan_kvs m = false).
+    { clear G E. induction IH as [|[k i'] r Hi _ IHr]; intros acc m0 Ha G0; cbn in G0.
+      - now inversion G0; subst.
+      - destruct (apply_idx i' (vlookup k base) values) as [v0|] eqn:A; [|discriminate].
+        apply (IHr (vset k v0 acc) m0); [|exact G0]. apply scan_vset; [exact Ha|].
+        apply (Hi (vlookup k base) values v0); [exact Hv| |exact A].
+        intros o Ho. apply (scan_vlookup k base o Hb Ho). }
+    eapply Hacc; eauto.
+Qed.
+
+Lemma apply_idx_total : forall i old values,
+  idx_in_range i (List.length values) = true -> exists v, apply_idx i old values = Done v.
+Proof.
+  induction i as [n|kvs IH] using index_ind'; intros old values H.
+  - cbn in *. apply PeanoNat.Nat.ltb_lt in H. destruct (nth_error values n) eqn:N; eauto.
+    apply nth_error_None in N. lia.
+  - rewrite apply_idx_sub.
+    set (base := match old with Some (VMap m) => m | _ => [] end).
+    assert (Hacc : forall acc, exists m, apply_go base values kvs acc = Done m).
+    { cbn in H. induction IH as [|[k i'] r Hi _ IHr]; intros acc; cbn.
+      - eauto.
+      - apply andb_prop in H as [H1 H2].
+        destruct (Hi (vlookup k base) values H1) as (v0 & Hv0). cbn [snd] in Hv0. rewrite Hv0.
+        apply IHr; auto. }
+    destruct (Hacc base) as (m & ->). eauto.
+Qed.
+
+Lemma names_loc_bad_overlay : forall L, names_loc L (PermFail (Some (msg_bad_overlay L)) (Some L)).
+Proof. intros. apply names_loc_attr. Qed.
+
+(* evaluate_overlay: a value only if celpy did not fail, and then an error-free one (given an
+   error-free base); every failure is a PermFail naming the location; the only exception
+   that can escape is the applier's IndexError, excluded when the index fits the value list *)
+Lemma evaluate_overlay_cases : forall idx r base loc,
+  err_free (VMap base) ->
+  match evaluate_overlay idx r base loc with
+  | Done (UVal v) => ~ failed r /\ err_free v
+  | Done (UOut o) => names_loc loc o
+  | Raised _ => exists l, r = RVal (VList l) /\ idx_in_range idx (List.length l) = false
+  end.
+Proof.
+  intros idx r base loc Hb. unfold evaluate_overlay.
+  destruct idx as [n|kvs]; [apply names_loc_bad_overlay|].
+  destruct r as [| |v]; try apply names_loc_fail_eval; try apply names_loc_fail_unknown.
+  destruct (scan v) eqn:S; [apply names_loc_fail_eval|].
+  destruct v; try apply names_loc_bad_overlay.
+  destruct (apply_idx (ISub kvs) (Some (VMap base)) l) as [m|e] eqn:A.
+  - split.
+    + intros F. apply failed_scan in F. congruence.
+    + apply scan_false_err_free. eapply apply_idx_scan; eauto.
+      intros o Ho. inversion Ho; subst. now apply scan_false_err_free.
+  - exists l. split; auto. destruct (idx_in_range (ISub kvs) (List.length l)) eqn:R; auto.
+    destruct (apply_idx_total (ISub kvs) (Some (VMap base)) l R) as (v & Hv). congruence.
+Qed.
+
+Lemma evaluate_overlay_failed : forall idx r base loc,
+  failed r -> exists o, evaluate_overlay idx r base loc = Done (UOut o) /\ names_loc loc o.
+Proof.
+  intros idx r base loc F. unfold evaluate_overlay.
+  destruct idx as [n|kvs]; [eexists; split; eauto using names_loc_bad_overlay|].
+  destruct r as [| |v].
+  - eexists; split; eauto using names_loc_fail_eval.
+  - eexists; split; eauto using names_loc_fail_unknown.
+  - apply failed_scan in F. rewrite F. eexists; split; eauto using names_loc_fail_eval.
+Qed.
+
+(* evaluate_predicates: the result is None or a non-Ok outcome (it has no data field, so
+   nothing can leak); a failure reported by celpy is a PermFail naming the location *)
+Lemma evaluate_predicates_failed : forall r loc,
+  failed r -> exists o, evaluate_predicates_raw r loc = Some o /\ names_loc loc o.
+Proof.
+  intros [| |v] loc F; cbn.
+  - eexists; split; eauto using names_loc_fail_eval.
+  - eexists; split; eauto. apply names_loc_attr.
+  - apply failed_scan in F. rewrite F. eexists; split; eauto using names_loc_fail_eval.
+Qed.
+
+Lemma decide_not_ok : forall loc p o, decide loc p = Done (Some o) -> is_ok o = false.
+Proof.
+  intros loc p o. unfold decide.
+  assert (U : (if dumpable p then Done (Some (PermFail (Some msg_unknown_pred) (Some loc)))
+               else Raised TypeError) = Done (Some o) -> is_ok o = false).
+  { destruct (dumpable p); intros E; inversion E; subst; reflexivity. }
+  destruct p; auto.
+  destruct (vlookup "assert" kvs); auto.
+  destruct (sub_map "ok" kvs); [discriminate|].
+  destruct (msg_in "depSkip" kvs); [intros E; inversion E; subst; reflexivity|].
+  destruct (msg_in "skip" kvs); [intros E; inversion E; subst; reflexivity|].
+  destruct (retry_in kvs) as [[m d]|].
+  { destruct (delay_of d); intros E; inversion E; subst; reflexivity. }
+  destruct (msg_in "permFail" kvs); [intros E; inversion E; subst; reflexivity|auto].
+Qed.
+
+Lemma evaluate_predicates_not_ok : forall r loc o,
+  evaluate_predicates_raw r loc = Some o -> is_ok o = false.
+Proof.
+  intros r loc o. unfold evaluate_predicates_raw.
+  destruct r as [| |v]; try (intros E; inversion E; subst; reflexivity).
+  destruct (scan v); [intros E; inversion E; subst; reflexivity|].
+  destruct v; try (intros E; inversion E; subst; reflexivity).
+  unfold p2k. destruct l as [|p rest]; [discriminate|].
+  destruct (decide loc p) as [[o'|]|e] eqn:D; intros E; inversion E; subst.
+  - eapply decide_not_ok; eauto.
+  - reflexivity.
+Qed.
+
+(* a user-visible message never is the text of an error object: outcomes other than the
+   evaluation-failure PermFail are produced only from an error-free predicate list *)
+Lemma evaluate_predicates_from_clean : forall v loc o,
+  evaluate_predicates_raw (RVal v) loc = Some o -> o <> fail_eval loc -> err_free v.
+Proof.
+  intros v loc o E N. unfold evaluate_predicates_raw in E. destruct (scan v) eqn:S.
+  - inversion E; subst. contradiction.
+  - now apply scan_false_err_free.
+Qed.
+
+(* ====================================================================== *)
+(* C10: ValueFunction level                                                *)
+(* ====================================================================== *)
+
+Definition part (s : site) : string :=
+  match s with
+  | SPre => "preconditions" | SLocals => "locals" | SResource => "resource"
+  | SPost => "postconditions" | SReturn => "return"
+  end.
+
+(* what celpy did at the sites of a ValueFunction *)
+Definition vf_raw_at (f : vfn) (s : site) : option raw :=
+  match s with
+  | SPre => vf_pre f
+  | SLocals => vf_locals f
+  | SReturn => option_map snd (vf_return f)
+  | _ => None
+  end.
+
+(* the return overlay's index only refers to positions of the evaluated value list
+   (prepare builds the list literal from exactly the indexed leaves) *)
+Definition vf_ret_fits (f : vfn) : Prop :=
+  match vf_return f with
+  | Some (idx, RVal (VList l)) => idx_in_range idx (List.length l) = true
+  | _ => True
+  end.
+
+Definition base_map (base : option (list (vtree * vtree))) : list (vtree * vtree) :=
+  match base with Some b => b | None => [] end.
+
+Lemma trace_of_in' : forall s s' r, In s (trace_of s' r) -> s = s' /\ r <> None.
+Proof. intros s s' [r|]; cbn; intuition congruence. Qed.
+
+Theorem vf_no_leak : forall f base loc,
+  err_free (VMap (base_map base)) ->
+  (* 1. a returned value never contains an error object *)
+  (forall v, fst (reconcile_vf f base loc) = Done (UVal v) -> err_free v) /\
+  (* 2. a site that was reached and at which celpy reported a failure => PermFail naming it *)
+  (forall s rw, In s (snd (reconcile_vf f base loc)) -> vf_raw_at f s = Some rw -> failed rw ->
+     exists o, fst (reconcile_vf f base loc) = Done (UOut o) /\ names_loc (sloc loc (part s)) o) /\
+  (* 3. no exception escapes *)
+  (vf_ret_fits f -> exists u, fst (reconcile_vf f base loc) = Done u).
+Proof.
+  intros f base loc Hb. unfold reconcile_vf.
+  destruct (evaluate_predicates_opt (vf_pre f) (sloc loc "preconditions")) as [o|] eqn:P.
+  { cbn [fst snd]. split; [discriminate|]. split; [|eauto].
+    intros st rw Hin Hr F. apply trace_of_in' in Hin as [-> _]. cbn in Hr.
+    rewrite Hr in P. cbn in P. destruct (evaluate_predicates_failed rw (sloc loc "preconditions") F) as (o' & E & N).
+    exists o'. split; auto. congruence. }
+  assert (Hpre : forall rw, vf_pre f = Some rw -> failed rw -> False).
+  { intros rw Hr F. rewrite Hr in P. cbn in P.
+    destruct (evaluate_predicates_failed rw (sloc loc "preconditions") F) as (o' & E & _). congruence. }
+  destruct (vf_return f) as [[idx rr]|] eqn:R.
+  2:{ cbn [fst snd]. split; [intros v E; inversion E; subst; apply scan_false_err_free; reflexivity|].
+      split; [|eauto].
+      intros st rw Hin Hr F. apply trace_of_in' in Hin as [-> _]. cbn in Hr. exfalso; eauto. }
+  pose proof (evaluate_cases (vf_locals f) (sloc loc "locals")) as HL.
+  pose proof (evaluate_overlay_cases idx rr (base_map base) (sloc loc "return") Hb) as HO.
+  fold (base_map base).
+  assert (Hgo :
+    let r := (evaluate_overlay idx rr (base_map base) (sloc loc "return"),
+              (trace_of SPre (vf_pre f) ++ trace_of SLocals (vf_locals f)) ++ [SReturn]) in
+    (forall rw, vf_locals f = Some rw -> failed rw -> False) ->
+    (forall v, fst r = Done (UVal v) -> err_free v) /\
+    (forall s rw, In s (snd r) -> vf_raw_at f s = Some rw -> failed rw ->
+       exists o, fst r = Done (UOut o) /\ names_loc (sloc loc (part s)) o) /\
+    (vf_ret_fits f -> exists u, fst r = Done u)).
+  { cbn [fst snd]. intros Hloc. split; [|split].
+    - intros v E. rewrite E in HO. tauto.
+    - intros st rw Hin Hr F. apply in_app_or in Hin as [Hin|[<-|[]]].
+      + apply in_app_or in Hin as [Hin|Hin]; apply trace_of_in' in Hin as [-> _]; cbn in Hr; exfalso; eauto.
+      + cbn in Hr. rewrite R in Hr. cbn in Hr. inversion Hr; subst.
+        apply evaluate_overlay_failed; auto.
+    - intros Hf. unfold vf_ret_fits in Hf. rewrite R in Hf.
+      destruct (evaluate_overlay idx rr (base_map base) (sloc loc "return")) as [u|e]; eauto.
+      destruct HO as (l & -> & Hr). congruence. }
+  destruct (evaluate (vf_locals f) (sloc loc "locals")) as [|v|o] eqn:EL.
+  - apply Hgo. intros rw Hr. rewrite HL in Hr. discriminate.
+  - destruct HL as [HL1 HL2].
+    assert (Hloc : forall rw, vf_locals f = Some rw -> failed rw -> False).
+    { intros rw Hr F. rewrite HL1 in Hr. inversion Hr; subst. cbn in F. now apply HL2. }
+    destruct v; try (apply Hgo; exact Hloc);
+    (cbn [fst snd]; split; [discriminate|]; split; [|eauto];
+     intros st rw Hin Hr F; apply in_app_or in Hin as [Hin|Hin]; apply trace_of_in' in Hin as [-> _];
+     cbn in Hr; exfalso; eauto).
+  - cbn [fst snd]. split; [discriminate|]. split; [|eauto].
+    destruct HL as [_ HN].
+    intros st rw Hin Hr F. apply in_app_or in Hin as [Hin|Hin]; apply trace_of_in' in Hin as [-> _]; cbn in Hr.
+    + exfalso; eauto.
+    + eauto.
+Qed.
+
+(* ====================================================================== *)
+(* C10: ResourceFunction, the sites of reconcile_resource_function itself  *)
+(* (the Kubernetes part is a Section variable: PARTIAL)                    *)
+(* ====================================================================== *)
+Section RFNoLeak.
+  Variable call : Type.
+  Variable krm : option raw -> uoutcome vtree * list call.
+
+  Definition rf_raw_at (f : rfn) (s : site) : option raw :=
+    match s with
+    | SPre => rf_pre f | SLocals => rf_locals f | SPost => rf_post f | SReturn => rf_return f
+    | SResource => None
+    end.
+
+  Theorem rf_no_leak_partial : forall f loc r t calls,
+    reconcile_rf call krm f loc = (r, t, calls) ->
+    (forall v, r = Some (UVal v) -> err_free v) /\
+    (forall s rw, In s t -> rf_raw_at f s = Some rw -> failed rw ->
+       exists o, r = Some (UOut o) /\ names_loc (sloc loc (part s)) o).
+  Proof.
+    intros f loc r t calls. unfold reconcile_rf.
+    destruct (evaluate_predicates_opt (rf_pre f) (sloc loc "preconditions")) as [o|] eqn:P.
+    { intros E; inversion E; subst. split; [discriminate|].
+      intros st rw Hin Hr F. apply trace_of_in' in Hin as [-> _]. cbn in Hr. rewrite Hr in P. cbn in P.
+      destruct (evaluate_predicates_failed rw (sloc loc "preconditions") F) as (o' & E' & N).
+      exists o'. split; auto. congruence. }
+    assert (Hpre : forall rw, rf_pre f = Some rw -> failed rw -> False).
+    { intros rw Hr F. rewrite Hr in P. cbn in P.
+      destruct (evaluate_predicates_failed rw (sloc loc "preconditions") F) as (o' & E & _). congruence. }
+    pose proof (evaluate_cases (rf_locals f) (sloc loc "locals")) as HL.
+    match goal with |- context [match ?X with Some _ => _ | None => _ end] => destruct X as [o2|] eqn:EL end.
+    { intros E; inversion E; subst. split; [discriminate|].
+      intros st rw Hin Hr F. apply in_app_or in Hin as [Hin|Hin]; apply trace_of_in' in Hin as [-> _]; cbn in Hr.
+      - exfalso; eauto.
+      - destruct (evaluate (rf_locals f) (sloc loc "locals")) as [|v|o3]; try discriminate.
+        + destruct HL as [HL1 HL2]. rewrite HL1 in Hr. inversion Hr; subst. cbn in F. contradiction.
+        + destruct HL as [_ HN]. inversion EL; subst. eauto. }
+    assert (Hloc : forall rw, rf_locals f = Some rw -> failed rw -> False).
+    { intros rw Hr F. destruct (evaluate (rf_locals f) (sloc loc "locals")) as [|v|o3].
+      - rewrite HL in Hr. discriminate.
+      - destruct HL as [HL1 HL2]. rewrite HL1 in Hr. inversion Hr; subst. cbn in F. contradiction.
+      - discriminate. }
+    assert (Hne : forall s, In s (trace_of SPre (rf_pre f) ++ trace_of SLocals (rf_locals f)) ->
+                  forall rw, rf_raw_at f s = Some rw -> failed rw -> False).
+    { intros s Hin rw Hr F. apply in_app_or in Hin as [Hin|Hin]; apply trace_of_in' in Hin as [-> _];
+        cbn in Hr; eauto. }
+    destruct (krm (rf_locals f)) as [[v|o3] calls0] eqn:K.
+    2:{ intros E; inversion E; subst. split; [discriminate|].
+        intros st rw Hin Hr F. apply in_app_or in Hin as [Hin|[<-|[]]]; [exfalso; eauto|discriminate]. }
+    destruct (evaluate_predicates_opt (rf_post f) (sloc loc "postconditions")) as [o4|] eqn:Q.
+    { intros E; inversion E; subst. split; [discriminate|].
+      intros st rw Hin Hr F. apply in_app_or in Hin as [Hin|[<-|Hin]]; [exfalso; eauto|discriminate|].
+      apply trace_of_in' in Hin as [-> _]. cbn in Hr. rewrite Hr in Q. cbn in Q.
+      destruct (evaluate_predicates_failed rw (sloc loc "postconditions") F) as (o' & E' & N).
+      exists o'. split; auto. congruence. }
+    assert (Hpost : forall rw, rf_post f = Some rw -> failed rw -> False).
+    { intros rw Hr F. rewrite Hr in Q. cbn in Q.
+      destruct (evaluate_predicates_failed rw (sloc loc "postconditions") F) as (o' & E & _). congruence. }
+    pose proof (evaluate_cases (rf_return f) (sloc loc "return")) as HR.
+    intros E; inversion E; subst. clear E. split.
+    - intros v0 E0. destruct (evaluate (rf_return f) (sloc loc "return")) as [|v1|o5]; inversion E0; subst. tauto.
+    - intros st rw Hin Hr F. apply in_app_or in Hin as [Hin|Hin].
+      + apply in_app_or in Hin as [Hin|[<-|Hin]]; [exfalso; eauto|discriminate|].
+        apply trace_of_in' in Hin as [-> _]. cbn in Hr. exfalso; eauto.
+      + apply trace_of_in' in Hin as [-> _]. cbn in Hr.
+        destruct (evaluate_failed rw (sloc loc "return") F) as (o' & E' & N).
+        rewrite Hr, E'. eauto.
+  Qed.
+End RFNoLeak.
